@@ -1,18 +1,32 @@
 // C16 Damaged files are refused or loaded, never crash or hang (time/memory proportional to the file).
 #include "fileoracle.hpp"
+#include <csignal>
+#include <sys/time.h>
+#include <unistd.h>
 namespace vf {
 const char *ntC16 = "non-trivial = mutated file differs from its well-formed base inside the header or the parameter section (data-only changes are trivial); distinct by (case text, mutation)";
 
 namespace {
+// CPU-time guard for loops that never reach a read (the read counter cannot see them): 20 s of process CPU time for ONE load of a
+// file of at most a few KB is >= 10^4 times its normal cost. CPU time, not wall-clock: machine load does not matter.
+void cpuGuardHandler(int) { const char m[] = "\nCPU-BUDGET-EXCEEDED: one load used more than 20 s of CPU time\n"; ssize_t r = write(2, m, sizeof m - 1); (void)r; _exit(97); }
+void cpuGuard(bool on) {
+    static bool installed = false;
+    if (!installed) { signal(SIGVTALRM, cpuGuardHandler); installed = true; }
+    struct itimerval it; it.it_interval.tv_sec = 0; it.it_interval.tv_usec = 0; it.it_value.tv_sec = on ? 20 : 0; it.it_value.tv_usec = 0;
+    setitimer(ITIMER_VIRTUAL, &it, nullptr);
+}
 // returns "" if the load behaved; sets outcome class
 std::string loadOnce(const std::vector<uint8_t> &bytes, const std::string &path, RunCtx &ctx, std::string &cls, bool &declSkipped) {
     declSkipped = false;
     writeBytes(path, bytes);
     hookArm(bytes.size());
+    cpuGuard(true);
     std::unique_ptr<ezc3d::c3d> obj;
     Outcome o;
     try { obj.reset(new ezc3d::c3d(path)); }
     catch (...) { o = classifyCurrentException(); }
+    cpuGuard(false);
     HookState hs = hook();
     hookDisarm();
     if (o.threw) {
